@@ -102,3 +102,158 @@ Theorem C05_failing_patch_leaves_no_change :
     a_applied stf = a_applied st /\ wsim allK dm fs (a_files stf) fs (a_files st).
 Proof. exact failing_patch_leaves_no_change. Qed.
 Print Assumptions C05_failing_patch_leaves_no_change.
+
+(* ---------- the headline: the state handed to the save phase is that of the first k patches ---------- *)
+From RQ Require Import PushPrefix.
+
+(* Whatever the loop returns (final index n, having started at idx): applying only the first n - idx patches of the
+   range gives the same stack of applied file patches and, name by name, the same files - lines, existence, effective
+   mode.  With C05_saved_tree_is_start_plus_overlay the tree after the push is the starting tree with exactly those
+   patches applied; with C05_records_exactly_the_applied those are the names recorded. *)
+Theorem C05_push_is_the_first_k_patches :
+  forall dm cfg db fs, disk_ok fs -> c_dry_run cfg = false ->
+  forall series st idx st' n rejs,
+    apply_series cfg db st idx series fs = (fs, ROk (st', n, rejs)) ->
+    series_run_ok cfg db fs st idx series ->
+    (forall s, In s (a_applied st) -> (st_index s < idx)%nat) ->
+    (idx <= n)%nat /\
+    exists stk, apply_series cfg db st idx (firstn (n - idx) series) fs = (fs, ROk (stk, n, [])) /\
+                a_applied st' = a_applied stk /\ wsim allK dm fs (a_files st') fs (a_files stk) /\
+                (forall s, In s (a_applied stk) -> (st_index s < n)%nat).
+Proof. exact push_is_prefix. Qed.
+Print Assumptions C05_push_is_the_first_k_patches.
+
+(* ... down to the tree on disk: after the save phase the tree reads, name by name, as the starting tree with exactly
+   the first k patches applied (k = n - idx, the number of names recorded) *)
+Theorem C05_tree_after_push_is_first_k :
+  forall K dm cfg db fs series st idx st' n rejs fs1 cl,
+    disk_ok fs -> c_dry_run cfg = false -> fs_fault fs = None ->
+    apply_series cfg db st idx series fs = (fs, ROk (st', n, rejs)) ->
+    series_run_ok cfg db fs st idx series ->
+    (forall s, In s (a_applied st) -> (st_index s < idx)%nat) ->
+    save_all dm (a_files st') [] fs = (fs1, ROk cl) ->
+    SaveReads.keys_indep (a_files st') -> Forall (SaveReads.entry_start_ok fs) (a_files st') ->
+    Forall (SaveReads.entry_ok dm) (a_files st') ->
+    (forall k, okkey K k -> ov_get k (a_files st') = None ->
+               Forall (fun e => SaveReads.indep (normalize k) (SaveReads.kpath e)) (a_files st')) ->
+    exists stk, apply_series cfg db st idx (firstn (n - idx) series) fs = (fs, ROk (stk, n, [])) /\
+                wsim K dm fs (a_files stk) (fst (clean_all cl fs1)) [].
+Proof. exact tree_after_push_is_first_k. Qed.
+Print Assumptions C05_tree_after_push_is_first_k.
+
+(* ---------- the same with the premises on absent entries discharged ---------- *)
+From RQ Require Import AbsentInv NameSafety.
+
+(* An overlay entry that stands for an absent file carries no content and no mode, and every key is in canonical
+   spelling - for every overlay the loop builds, including the undo walk of the failing patch.  What remains as
+   premises of the tree theorem: the size limit of the L1 theorems along the run (series_sizes: every file in every
+   state passed has fewer than 2^63 lines; a computation for a concrete run), the line structure of the final entries
+   (false exactly for the finding no-newline-midfile), names that do not run through each other (false exactly for
+   dir-and-file) and what the existed flags say about the start (LoadedState.linv_start_ok). *)
+Theorem C05_absent_entries_are_clean :
+  forall dm cfg db fs, disk_ok fs -> c_dry_run cfg = false ->
+  forall series st idx st' n rejs,
+    apply_series cfg db st idx series fs = (fs, ROk (st', n, rejs)) ->
+    series_run_small cfg db fs st idx series ->
+    (forall s, In s (a_applied st) -> (st_index s < idx)%nat) ->
+    ainv dm (a_files st) -> ainv dm (a_files st').
+Proof. exact apply_series_ainv. Qed.
+Print Assumptions C05_absent_entries_are_clean.
+
+Theorem C05_pushed_tree_is_first_k :
+  forall K dm cfg db fs series st idx st' n rejs fs1 cl,
+    disk_ok fs -> c_dry_run cfg = false -> fs_fault fs = None ->
+    apply_series cfg db st idx series fs = (fs, ROk (st', n, rejs)) ->
+    series_sizes cfg db fs st idx series ->
+    (forall s, In s (a_applied st) -> (st_index s < idx)%nat) ->
+    st_ok st -> ainv dm (a_files st) ->
+    save_all dm (a_files st') [] fs = (fs1, ROk cl) ->
+    SaveReads.keys_indep (a_files st') -> Forall (SaveReads.entry_start_ok fs) (a_files st') ->
+    Forall lines_ok (a_files st') ->
+    (forall k, okkey K k -> ov_get k (a_files st') = None ->
+               Forall (fun e => SaveReads.indep (normalize k) (SaveReads.kpath e)) (a_files st')) ->
+    exists stk, apply_series cfg db st idx (firstn (n - idx) series) fs = (fs, ROk (stk, n, [])) /\
+                wsim K dm fs (a_files stk) (fst (clean_all cl fs1)) [].
+Proof. exact pushed_tree_is_first_k. Qed.
+Print Assumptions C05_pushed_tree_is_first_k.
+
+(* the premises are met by a concrete push: two patches on one file, the second fails *)
+From Coq Require Import String.
+From RQ Require Import Lines Reload.
+Definition c05_nl := String (Ascii.ascii_of_nat 10) EmptyString.
+Definition c05_p1 := b ("--- a/f" ++ c05_nl ++ "+++ b/f" ++ c05_nl ++ "@@ -2 +2 @@" ++ c05_nl ++ "-b" ++ c05_nl ++ "+B" ++ c05_nl)%string.
+Definition c05_p2 := b ("--- a/f" ++ c05_nl ++ "+++ b/f" ++ c05_nl ++ "@@ -1 +1 @@" ++ c05_nl ++ "-zzz" ++ c05_nl ++ "+Q" ++ c05_nl)%string.
+Definition c05_fs : fsys :=
+  {| fs_files := [([b "f"], {| f_data := b ("a" ++ c05_nl ++ "b" ++ c05_nl)%string; f_mode := 420 |})];
+     fs_dirs := []; fs_log := []; fs_fault := None; fs_fired := false |}.
+Definition c05_db : patches_db := [(b "p1", c05_p1); (b "p2", c05_p2)].
+Definition c05_cfg : config :=
+  {| c_fuzz := 0; c_backup := Never; c_backup_count := BAll; c_dry_run := false; c_default_mode := 420; c_preload := false |}.
+Definition c05_series := [ {| sp_name := b "p1"; sp_strip := 1; sp_reverse := false |};
+                           {| sp_name := b "p2"; sp_strip := 1; sp_reverse := false |} ].
+Definition c05_empty : astate := {| a_applied := []; a_files := [] |}.
+Definition c05_run := apply_series c05_cfg c05_db c05_empty 0 c05_series c05_fs.
+Definition c05_st : astate := match snd c05_run with ROk (st, _, _) => st | _ => c05_empty end.
+Definition c05_rejs : list rej_file := match snd c05_run with ROk (_, _, r) => r | _ => [] end.
+Definition c05_saved := save_all 420 (a_files c05_st) [] c05_fs.
+Definition c05_cl : list npath := match snd c05_saved with ROk cl => cl | _ => [] end.
+
+Example C05_premises_met :
+  c05_run = (c05_fs, ROk (c05_st, 1%nat, c05_rejs)) /\ c05_rejs <> [] /\ a_files c05_st <> [] /\
+  disk_ok c05_fs /\ series_sizes c05_cfg c05_db c05_fs c05_empty 0 c05_series /\
+  st_ok c05_empty /\ ainv 420 (a_files c05_empty) /\
+  c05_saved = (fst c05_saved, ROk c05_cl) /\
+  SaveReads.keys_indep (a_files c05_st) /\ Forall (SaveReads.entry_start_ok c05_fs) (a_files c05_st) /\
+  Forall lines_ok (a_files c05_st) /\
+  (forall k, okkey (fun k => k = b "g") k -> ov_get k (a_files c05_st) = None ->
+             Forall (fun e => SaveReads.indep (normalize k) (SaveReads.kpath e)) (a_files c05_st)).
+Proof.
+  split; [vm_compute; reflexivity|]. split; [vm_compute; discriminate|]. split; [vm_compute; discriminate|].
+  split.
+  { intros k f H. unfold fs_read in H. destruct (normalize k) as [|c r]; [discriminate|].
+    destruct (existsb _ _); [discriminate|]. cbn [c05_fs fs_files lookup_file] in H.
+    destruct (npath_eqb (c :: r) [b "f"]); [injection H as <-; vm_compute; reflexivity|].
+    destruct (is_dir _ _); discriminate. }
+  split; [apply series_sizesb_ok; vm_compute; reflexivity|].
+  destruct (empty_state_ok 420) as (Hok & Hinv & _). split; [exact Hok|]. split; [exact Hinv|].
+  split; [vm_compute; reflexivity|].
+  assert (Hov : a_files c05_st = [(b "f", {| content := split_lines (b ("a" ++ c05_nl ++ "B" ++ c05_nl)%string);
+                                             existed := true; deleted := false; perm := Some 33188%N |})])
+    by (vm_compute; reflexivity).
+  rewrite Hov. split; [split; [constructor|exact I]|]. split.
+  { constructor; [|constructor]. split; [reflexivity|]. split; [reflexivity|discriminate]. }
+  split.
+  { constructor; [|constructor]. apply split_lines_wf. }
+  intros k [-> _] _. constructor; [|constructor]. unfold SaveReads.indep, SaveReads.pprefix, SaveReads.kpath.
+  split; [vm_compute; discriminate|]. split; vm_compute; intros [].
+Qed.
+
+(* The headline for a push that starts from nothing applied.  Premises: sizes (disk_ok, series_sizes), no injected
+   fault, a starting tree in which nothing is both file and directory, the save phase succeeds, and of the final
+   overlay: no entry names the working directory itself, no name runs through another (dir-and-file), the lines are
+   well-formed (no-newline-midfile); the last premise says which other names the statement speaks about. *)
+Theorem C05_pushed_tree_from_scratch :
+  forall K dm cfg db fs series st' n rejs fs1 cl,
+    disk_ok fs -> c_dry_run cfg = false -> fs_fault fs = None -> LoadedState.no_file_dir fs ->
+    apply_series cfg db {| a_applied := []; a_files := [] |} 0 series fs = (fs, ROk (st', n, rejs)) ->
+    series_sizes cfg db fs {| a_applied := []; a_files := [] |} 0 series ->
+    save_all dm (a_files st') [] fs = (fs1, ROk cl) ->
+    Forall (fun e => SaveReads.kpath e <> []) (a_files st') -> no_through (a_files st') -> Forall lines_ok (a_files st') ->
+    (forall k, okkey K k -> ov_get k (a_files st') = None ->
+               Forall (fun e => SaveReads.indep (normalize k) (SaveReads.kpath e)) (a_files st')) ->
+    exists stk, apply_series cfg db {| a_applied := []; a_files := [] |} 0 (firstn n series) fs = (fs, ROk (stk, n, [])) /\
+                wsim K dm fs (a_files stk) (fst (clean_all cl fs1)) [].
+Proof. exact pushed_tree_from_scratch. Qed.
+Print Assumptions C05_pushed_tree_from_scratch.
+
+Example C05_scratch_premises_met :
+  LoadedState.no_file_dir c05_fs /\ Forall (fun e => SaveReads.kpath e <> []) (a_files c05_st) /\ no_through (a_files c05_st).
+Proof.
+  assert (Hov : a_files c05_st = [(b "f", {| content := split_lines (b ("a" ++ c05_nl ++ "B" ++ c05_nl)%string);
+                                             existed := true; deleted := false; perm := Some 33188%N |})])
+    by (vm_compute; reflexivity).
+  rewrite Hov. split; [|split].
+  - intros p Hfile. destruct p as [|c r]; [vm_compute in Hfile; discriminate Hfile|reflexivity].
+  - constructor; [vm_compute; discriminate|constructor].
+  - intros e e' [<-|[]] [<-|[]]. vm_compute. intros [].
+Qed.
